@@ -188,6 +188,113 @@ def common_order(cbm_ids, adm_ids):
 
 
 # --------------------------------------------------------------------------
+# the source model moves on between calls (unmerge_adm takes a graph ID: the caller's model may have been updated in place,
+# reloaded under the same id, or deleted, since it was merged)
+
+EDIT_KINDS = ("delnode", "addnode", "prop", "replace", "reload", "gone")
+
+
+def apply_edit(imp, spec_id, kind, arg):
+    """Change the graph stored under `spec_id` through the graph interface / the store; returns the abstract spec of
+    what is stored under the id afterwards (no nodes = the graph is gone)."""
+    pg = classes()["PG"](graph_id=spec_id, importer=imp)
+    if kind == "delnode":
+        pg.delete_node(node_id=arg)
+    elif kind == "addnode":
+        nid, props, ld, cd, nb = arg
+        p = {k: v for k, v in props.items() if k != "Class"}
+        if ld is not None:
+            p[LDEL] = _deleg_text(ld)
+        if cd is not None:
+            p[CDEL] = _deleg_text(cd)
+        pg.add_node(node_id=nid, label=props.get("Class", "NetworkNode"), props=p)
+        if nb is not None:
+            pg.add_link(node_a=nb, rel="connects", node_b=nid)
+    elif kind == "prop":
+        nid, name, val = arg
+        pg.update_node_property(node_id=nid, prop_name=name, prop_val=val)
+    elif kind == "replace":
+        if arg["nodes"]:
+            load_spec(imp, arg)          # add_graph replaces the graph stored under the id
+        else:
+            pg.delete_graph()
+    elif kind == "reload":
+        cur = spec_of_graph(imp, spec_id)
+        if cur["nodes"]:
+            load_spec(imp, cur)
+    elif kind == "gone":
+        pg.delete_graph()
+    else:
+        raise ValueError(kind)
+    return spec_of_graph(imp, spec_id)
+
+
+def edit_spec(cur, kind, arg):
+    """The abstract effect of an edit (for the generators, which plan histories without running them)."""
+    if kind == "delnode":
+        return {"id": cur["id"], "nodes": [x for x in cur["nodes"] if x[0] != arg], "edges": [e for e in cur["edges"] if arg not in e[:2]]}
+    if kind == "addnode":
+        return {"id": cur["id"], "nodes": cur["nodes"] + [arg[:4]], "edges": cur["edges"] + ([[arg[4], arg[0], {"Class": "connects"}]] if arg[4] else [])}
+    if kind == "prop":
+        return {"id": cur["id"], "nodes": [[x[0], dict(x[1], **{arg[1]: arg[2]}), x[2], x[3]] if x[0] == arg[0] else x for x in cur["nodes"]],
+                "edges": cur["edges"]}
+    if kind == "replace":
+        return arg
+    if kind == "gone":
+        return {"id": cur["id"], "nodes": [], "edges": []}
+    return cur
+
+
+def gen_edit(rng, cur, family, i, n):
+    """One update of model i (current version `cur`): (kind, arg).  Retired elements are preferably ones only this model
+    has (what an unmerge must take out), new ones are fresh or ids a sibling has (they become shared)."""
+    ids = [x[0] for x in cur["nodes"]]
+    others = set()
+    for j, sp in enumerate(family):
+        if j != i:
+            others |= {x[0] for x in sp["nodes"]}
+    if not ids:
+        return ("replace", family[i])                     # the model comes back as it was first
+    r = rng.random()
+
+    def new_node():
+        cand = sorted(others - set(ids))
+        nid = rng.choice(cand) if cand and rng.random() < 0.3 else "%s-new%d" % (ids[0], n)
+        ld = {rng.choice(["primary", cur["id"]]): canon_details({"pool_id": "_", "labels": {"vlan_range": "7-8"}})} if rng.random() < 0.3 else None
+        cd = {"primary": canon_details({"pool_id": "_", "capacities": {"unit": 2}})} if rng.random() < 0.3 else None
+        return [nid, {"Class": "ConnectionPoint", "Name": nid, "StitchNode": rng.choice(["true", "false"])}, _norm(ld, True), _norm(cd, False)]
+    if r < 0.35:
+        own = [x for x in ids if x not in others]
+        return ("delnode", rng.choice(own) if own and rng.random() < 0.7 else rng.choice(ids))
+    if r < 0.5:
+        return ("addnode", new_node() + [rng.choice(ids) if rng.random() < 0.8 else None])
+    if r < 0.6:
+        return ("prop", [rng.choice(ids), rng.choice(["Name", "Model", "StitchNode"]), rng.choice(["true", "v%d" % n])])
+    if r < 0.85:
+        # reloaded under the same id with a different element set: some elements retired, some new, the rest as they were
+        keep = [x for x in cur["nodes"] if rng.random() < 0.6]
+        kid = {x[0] for x in keep}
+        nodes = [list(x) for x in keep]
+        edges = [list(e) for e in cur["edges"] if e[0] in kid and e[1] in kid]
+        for _ in range(rng.randrange(0, 3)):
+            nn = new_node()
+            if nn[0] in kid:
+                continue
+            if nodes and rng.random() < 0.8:
+                edges.append([rng.choice(nodes)[0], nn[0], {"Class": "connects"}])
+            nodes.append(nn)
+            kid.add(nn[0])
+        if not nodes:
+            nodes = [new_node()]
+        if rng.random() < 0.5:
+            rng.shuffle(nodes)
+        return ("replace", {"id": cur["id"], "nodes": nodes, "edges": edges})
+    if r < 0.92:
+        return ("reload", None)
+    return ("gone", None)
+
+
+# --------------------------------------------------------------------------
 # the repo's advertisement files
 
 
@@ -486,6 +593,15 @@ def corner_cases():
                                                          ("unmerge", 0), ("unmerge", 2)]))
     out.append(("three-share-one:unmerge-first-then-remerge", fam, [("merge", 0), ("merge", 1), ("merge", 2), ("unmerge", 0), ("merge", 0),
                                                                      ("unmerge", 1), ("unmerge", 2), ("unmerge", 0)]))
+    # the source model moves on between its merge and its unmerge (unmerge_adm takes an id): an element retired in place, the
+    # model reloaded under its id with a different element set, the model deleted from the store, an element added, reloaded as it is
+    a2 = {"id": "adm-1", "nodes": [_n("a2", cd=_cap("primary")), _n("hub", Model="one-v2"), _n("b1")], "edges": [["hub", "a2", dict(E)], ["a2", "b1", dict(E)]]}
+    for nm, ed in (("retire-element", ("delnode", "a1")), ("reloaded-with-other-elements", ("replace", normalise_spec(a2))), ("deleted", ("gone", None)),
+                   ("element-added", ("addnode", ["b1", {"Class": "ConnectionPoint", "Name": "b1", "StitchNode": "true"}, None, None, "a1"])),
+                   ("reloaded-unchanged", ("reload", None)), ("retire-shared-element", ("delnode", "hub"))):
+        out.append(("source-moves-on:" + nm, fam, [("merge", 0), ("merge", 1), ("snapshot",), ("merge", 2), ("edit", 0) + ed, ("unmerge", 0),
+                                                   ("merge", 0), ("unmerge", 1), ("rollback", 0), ("unmerge", 0)]))
+        out.append(("source-moves-on-alone:" + nm, fam, [("merge", 0), ("edit", 0) + ed, ("unmerge", 0), ("merge", 0), ("merge", 2)]))
     # models sharing NO element
     d1 = {"id": "adm-d1", "nodes": [_n("p1", cd=_cap("primary")), _n("p2")], "edges": [["p1", "p2", dict(E)]]}
     d2 = {"id": "adm-d2", "nodes": [_n("q1", ld=_lab("primary"))], "edges": []}
@@ -575,6 +691,8 @@ def describe(count, family, ops, cbm_sizes=None):
             nsnap += 1
         elif op[0] == "rollback":
             count("case:rollback:%s" % ("existing-index" if op[1] < nsnap else "no-such-snapshot"))
+        elif op[0] == "edit":
+            count("case:edit:%s:%s" % (op[2], "while-merged" if op[1] in live else "while-not-merged"))
     gids = {s["id"] for s in family}
     for s in family:
         for n in s["nodes"]:
